@@ -84,6 +84,8 @@ class Set(
                 res.append(getattr(temp_st, getattr(self.items, "_name")))
             value = cls(res)
             self.validate_size(value, self._name)
+        elif cls is set:
+            value = set(value)  # never keep the caller's own (mutable) set
         super().__set__(instance, value)
 
     def serialize(self, value):
